@@ -5,6 +5,7 @@ go 1.26.5
 require (
 	github.com/anishathalye/porcupine v1.3.0
 	github.com/cosi-project/runtime v0.0.0
+	go.etcd.io/bbolt v1.5.0
 )
 
 require (
@@ -19,7 +20,6 @@ require (
 	github.com/siderolabs/go-retry v0.3.3 // indirect
 	github.com/siderolabs/protoenc v0.2.4 // indirect
 	github.com/stretchr/testify v1.11.1 // indirect
-	go.etcd.io/bbolt v1.5.0 // indirect
 	go.uber.org/multierr v1.11.0 // indirect
 	go.uber.org/zap v1.28.0 // indirect
 	go.yaml.in/yaml/v4 v4.0.0-rc.6 // indirect
